@@ -1,6 +1,8 @@
 #!/bin/sh
-# regenerate Makefile from _CoqProject + all .v files, then make the given targets
+# regenerate Makefile from _CoqProject + all .v files, then make the given targets (serialised by a lock)
 cd "$(dirname "$0")"
+exec 9>.mk.lock
+flock 9
 { cat _CoqProject; find theories -name '*.v' | sort; } > _CoqProject.files
 coq_makefile -f _CoqProject.files -o Makefile >/dev/null 2>&1
-exec make -j16 "$@"
+if [ $# -eq 0 ]; then exec make -k -j16; else exec make -j16 "$@"; fi
